@@ -502,9 +502,13 @@ class DLC(utils.EventEmitter):
         self._sink = sink
         # Dump queued packets to sink
         if sink:
+            had_queued_packets = len(self._enqueued_rx_packets) > 0
             for packet in self._enqueued_rx_packets:
                 sink(packet)  # pylint: disable=not-callable
             self._enqueued_rx_packets.clear()
+            if had_queued_packets:
+                # Release the rx credits that were held back while packets were queued
+                self.process_tx()
 
     def change_state(self, new_state: State) -> None:
         logger.debug(f'{self} state change -> {color(new_state.name, "magenta")}')
@@ -672,6 +676,11 @@ class DLC(utils.EventEmitter):
         self.change_state(DLC.State.CONNECTING)
 
     def rx_credits_needed(self) -> int:
+        if self._enqueued_rx_packets:
+            # Flow control: no new credits while received packets wait for a sink,
+            # so that the (bounded) queue cannot overflow
+            return 0
+
         if self.rx_credits <= self.rx_credits_threshold:
             return self.rx_max_credits - self.rx_credits
 
